@@ -13,5 +13,6 @@ INVARIANT LawProbesCoverVertices
 INVARIANT LawSomeProbeOutside
 INVARIANT LawLimbs
 INVARIANT LawMonoComparable
+INVARIANT LawTypes
 INVARIANT LawOutcome
 CHECK_DEADLOCK FALSE
